@@ -225,7 +225,16 @@ var Templates = map[string][]Template{
 		w("SET {key} {id} RETURN BOUNDS POINT 5 6"),
 		w("SET {key} {id} RETURN HASH 7 POINT 5 6"),
 		w("SET {key} {id} RETURN HASH 13 POINT 5 6"),
-		w("SET {key} {id} POINT 95 6"), w("SET {key} {id} POINT NaN 6"), w("SET {key} {id} POINT 1e999 6")},
+		w("SET {key} {id} POINT 95 6"), w("SET {key} {id} POINT NaN 6"), w("SET {key} {id} POINT 1e999 6"), w("SET {key} {id} POINT 5 inf"), w("SET {key} {id} POINT 5 6 NaN"),
+		w("SET {key} {id} POINT 5 6 -Inf"), w("SET {key} {id} BOUNDS NaN 1 2 3"), w("SET {key} {id} BOUNDS 0 1 2 +Inf"), w("SET {key} {id} RETURN POINT POINT NaN 6"), w("SET {key} {id} RETURN OBJECT POINT NaN 6"),
+		w("SET {key} {id} RETURN BOUNDS BOUNDS NaN 1 2 3"), w("SET {key} {id} RETURN HASH 5 POINT NaN 6")},
+	// ---- coordinates that are not numbers
+	"+nan": {pre("SET {key} nanpt POINT NaN 6", w("GET {key} nanpt")), pre("SET {key} nanpt POINT NaN 6", w("GET {key} nanpt POINT")), pre("SET {key} nanpt POINT NaN 6", w("GET {key} nanpt BOUNDS")),
+		pre("SET {key} nanpt POINT NaN 6", w("SCAN {key} POINTS")), pre("SET {key} nanpt POINT 5 6 NaN", w("SCAN {key} OBJECTS")), pre("SET {key} nanpt BOUNDS NaN 1 2 3", w("SCAN {key} BOUNDS")),
+		pre("SET {key} nanpt POINT NaN 6", w("NEARBY {key} DISTANCE POINT 1 2")), pre("SET {key} nanpt POINT inf 6", w("BOUNDS {key}")), pre("SET {key} nanpt POINT NaN 6", w("WITHIN {key} BOUNDS -90 -180 90 180")),
+		w("NEARBY {key} DISTANCE POINT NaN 6"), w("NEARBY {key} DISTANCE POINT 33 -115 NaN"), w("NEARBY {key} DISTANCE POINT inf 6 100"), w("WITHIN {key} BOUNDS NaN 0 1 1"), w("WITHIN {key} CIRCLE NaN 1 100"),
+		w("WITHIN {key} CIRCLE 33.5 -115.5 NaN"), w("INTERSECTS {key} BUFFER NaN POINT 1 1"), w("TEST POINT NaN 1 WITHIN BOUNDS 0 0 1 1"), w("TEST POINT 1 1 INTERSECTS CLIP BOUNDS NaN 0 2 2"),
+		w("WITHIN {key} SECTOR 33.5 -115.5 NaN 0 90"), w("INTERSECTS {key} TILE NaN 1 1"), w("SCAN {key} WHERE {field} NaN +inf"), w("SCAN {key} WHEREIN {field} 1 NaN")},
 	"fset": {w("FSET {key} {id} {field} 42"), w("FSET {key} {id} {field2} {fval}"), w("FSET {key} {id} {field} 10.5"),
 		w("FSET {key} nosuch XX {field} 3"), w("FSET {key} nosuch {field} 3"), w("FSET nosuchkey {id} {field} 3"),
 		w("FSET {key} {id} {field} 1 {field2} 2 newf {fval}"), w("FSET {key} {id} lat 3"),
@@ -243,7 +252,7 @@ var Templates = map[string][]Template{
 		w("SETHOOK {chan} http://127.0.0.1:9/other NEARBY {key} " + fenceTail),
 		w("SETHOOK hooknew notaurl NEARBY {key} " + fenceTail),
 		w("SETHOOK hooknew http://127.0.0.1:9/h NEARBY {key} POINT 10 10 100"),
-		w("SETHOOK hooknew http://127.0.0.1:9/h EX 5 INTERSECTS {key} FENCE DETECT bogus BOUNDS 1 2 3 4")},
+		w("SETHOOK hooknew http://127.0.0.1:9/h EX 5000 INTERSECTS {key} FENCE DETECT bogus BOUNDS 1 2 3 4")},
 	"delhook":  {w("DELHOOK {hook}"), w("DELHOOK nosuch"), w("DELHOOK {chan}")},
 	"pdelhook": {w("PDELHOOK *"), w("PDELHOOK nosuch*")},
 	"setchan": {w("SETCHAN channew NEARBY {key} " + fenceTail), w("SETCHAN {hook} NEARBY {key} " + fenceTail),
@@ -359,12 +368,12 @@ var Templates = map[string][]Template{
 	"hello":   {w("HELLO 3"), w("HELLO")},
 	"command": {w("COMMAND"), w("COMMAND DOCS")},
 	"timeout": {w("TIMEOUT 10 GET {key} {id}"), w("TIMEOUT 10 SET {key} viatimeout POINT 1 2"), w("TIMEOUT 10 SCAN {key} LIMIT 2 IDS"), w("TIMEOUT abc GET {key} {id}"), w("TIMEOUT -1 GET {key} {id}"),
-		w("TIMEOUT 10"), w("TIMEOUT 10 NOSUCHCOMMAND"), w("TIMEOUT 0.000001 SCAN {key}"), a("TIMEOUT", "0.05", "EVALRO", "while true do end", "0"),
+		w("TIMEOUT 10"), w("TIMEOUT 10 NOSUCHCOMMAND"), w("TIMEOUT 0.000000001 SCAN {key}"), a("TIMEOUT", "0.05", "EVALRO", "while true do end", "0"),
 		a("TIMEOUT", "0.05", "EVAL", "while true do end", "0")},
 	// ---- errors that quote an argument
-	"+echo": {w("GET {key} {id} HASH {fval}"), w("DEL {key} {id} {fval}"), w("EXPIRE {key} {id} {fval}"), w("OUTPUT {fval}"), w("SERVER {fval}"), w("READONLY {fval}"),
+	"+echo": {w("GET {key} {id} HASH {fval}"), w("DEL {key} {id} {fval}"), w("EXPIRE {key} {id} x{fval}"), w("OUTPUT {fval}"), w("SERVER {fval}"), w("READONLY {fval}"),
 		w("{fval}"), w("{hook} {key}"), w("SET {key} {id} {fval}"), w("SCAN {key} LIMIT {fval}"), w("SCAN {key} CURSOR {fval}"), w("NEARBY {key} POINT {fval} 1"), w("JGET {key} {doc} n {fval}"),
-		w("CONFIG SET {fval} 1"), w("CONFIG {fval}"), w("SCRIPT {fval}"), w("CLIENT {fval}"), w("TIMEOUT {fval} GET {key} {id}"), w("EVAL {fval} 0"), w("EVALSHA {fval} 0"), w("SETHOOK {hook} {fval} NEARBY {key} FENCE POINT 1 1 1"),
+		w("CONFIG SET {fval} 1"), w("CONFIG {fval}"), w("SCRIPT {fval}"), w("CLIENT {fval}"), w("TIMEOUT x{fval} GET {key} {id}"), w("EVAL {fval} 0"), w("EVALSHA {fval} 0"), w("SETHOOK {hook} {fval} NEARBY {key} FENCE POINT 1 1 1"),
 		w("WITHIN {key} {fval} 1 2 3 4"), w("TEST POINT 1 1 {fval} POINT 1 1"), w("SET {key} {id} FIELD lat {fval} POINT 1 1"), w("FSET {key} {id} lon {fval}"), w("AOFMD5 {fval} 1"), w("SCAN {key} HASHES {fval}"),
 		a("SET", "{key}", "{id}", "OBJECT", "{sval}"), a("WITHIN", "{key}", "OBJECT", "{sval}"), a("EVAL", "return tile38.call('get', ARGV[1])", "0", "{fval}"), a("EVAL", "return {err=ARGV[1]}", "0", "{fval}"), a("EVAL", "return {ok=ARGV[1]}", "0", "{fval}")},
 	// ---- live searches (the first reply and the pushed messages are compared by the live driver)
@@ -407,7 +416,7 @@ func Instances(cmds []gates.SourceCmd) ([]Instance, error) {
 	for _, c := range cmds {
 		names = append(names, c.Name)
 	}
-	names = append(names, "+echo", "+fence")
+	names = append(names, "+echo", "+nan", "+fence")
 	for _, name := range names {
 		tps := Templates[name]
 		if len(tps) == 0 {
